@@ -127,7 +127,7 @@ PROPS["C12"] = dict(
 
 PROPS["C04"] = dict(
     claim=dict(
-        text="Machine-checked proof (Coq 8.16) over a small-step stack machine for Context.Next with the int8 cursor written out: for every chain of at most 63 handlers calling Next at most once, effects happen in onion order and every handler starts exactly once (C04_onion, generic in the effect type, so it also orders writer operations); for arbitrary handler programs (aborts, panics, any ops) with at most one Next each, no handler ever starts twice and the cursor never crashes (C04_each_at_most_once, C04_no_cursor_crash, by a reachable-state invariant); the chain is global ++ route middleware ++ main resp. global ++ fallback handlers (C04_chain_*), and route middleware is the lexically scoped list (C04_route_middleware). K2 (Next twice in 43 middleware wraps the cursor) is kept as a refuted witness and a known finding. Tie to the code: generated registration programs x handler behaviours (no/one/two Next) x requests incl. 404/405 probes; traces, response logs compared with the extracted model; the judge recomputes the onion trace from the denoted chain.",
+        text="Machine-checked proof (Coq 8.16) over a small-step stack machine for Context.Next with the int8 cursor written out: for every chain of at most 63 handlers calling Next at most once, effects happen in onion order and every handler starts exactly once (C04_onion, generic in the effect type, so it also orders writer operations); for arbitrary handler programs (aborts, panics, any ops) with at most one Next each, no handler ever starts twice and the cursor never crashes (C04_each_at_most_once, C04_no_cursor_crash, by a reachable-state invariant); the chain is global ++ route middleware ++ main resp. global ++ fallback handlers (C04_chain_*), and route middleware is the lexically scoped list (C04_route_middleware). End to end (Sys.v: registration program -> route table -> QuickMatch -> dispatcher as one extracted function): whatever the lookup of the built router answers, the chain that runs is globals ++ groups (outermost first) ++ route's own ++ main, resp. globals ++ fallback handlers (C04_chain_of_lookup/_not_found/_not_allowed); the dispatcher's fuel always suffices for well-behaved chains (C04_dispatch_onion); and for programs of static routes the whole statement is read off the program text, after any earlier requests (C04_end_to_end). K2 (Next twice in 43 middleware wraps the cursor) is kept as a refuted witness and a known finding. Tie to the code: the model that is run against rux IS that extracted function (sys_build/sys_serve); generated registration programs x handler behaviours (no/one/two Next) x requests incl. 404/405 probes; traces, response logs compared with the extracted model; the judge recomputes the onion trace from the denoted chain.",
         note="Trusted: Coq kernel, extraction, driver, harness. Handlers calling Next any number of times: every handler still starts at most once in any chain of at most 63 handlers (C04_next_many_each_once), and without Abort ops the cursor cannot crash while chain length + number of Next ops <= 127 (C04_next_many_no_crash); beyond that bound it does (K2). PanicsHandler middleware is outside the model (DESIGN O1).",
         technique="Coq proof: onion-order theorem and reachable-state invariant of a stack machine with int8 cursor; extracted model vs implementation differential check"),
     n=dict(quick=3000, thorough=40000),
